@@ -55,7 +55,7 @@ PROP = {
                'hypotheses sgr_wf and not sgr_inexpressible) and RFaceReport with 7/27/39/49 (known finding, class sgr-inexpressible-report '
                'with require_agree, tag derived in the harness from the parameter string; predicate = reference machine only). '
                'C04_xterm_keys covers every mask since crate fix 8f4107f (former finding C04-key-mask); PC-style F3 with mask >= 8 is '
-               'outside wf because its bytes are a cursor position report. C04_key_modifiers: codes below 32, parameters 1..256. Trusted: Coq kernel + vm_compute; DFA dump hook + translate/dfa.py + translate/c04keys.py; hand-written payload '
+               'outside wf because its bytes are a cursor position report. C04_key_modifiers: codes below 32, parameters 1..256. Counted: 11 theorems; lemmas C04_fast_decode, C04_key_mask8_decodes, C04_da_set, C04_face_report_recorded audited, not counted. Trusted: Coq kernel + vm_compute; DFA dump hook + translate/dfa.py + translate/c04keys.py; hand-written payload '
                'models validated by the correspondence run; C03 theorem (feeding any partition of the stream = munch); the printer '
                '(Decoder/Printer.v) as the meaning of the protocols. No axioms.',
  'technique': 'Coq proof (reflection: verified reachability checker over the regenerated automaton for each family grammar, '
